@@ -1,7 +1,10 @@
 (* C09 -- property theorems only.  Each is closed by `exact <lemma>` and followed by Print Assumptions;
    the check re-compiles this file on every run (Gen_tables.v is regenerated from /repo first). *)
 From Coq Require Import List NArith Bool.
+From Coq Require Import ZArith.
 From MW Require Import Common.Str C09.Gen_tables C09.Model C09.Proofs C09.Proofs2 C09.Proofs3.
+From MW Require C01.Model C01.Gen_resolve C10.Regex C10.Tags C10.Gen_rules C10.Model C10.Proofs.
+From MW Require Import C09.Scanner C09.Scanner2 C09.EntModel C09.EntProofs.
 Import ListNotations.
 Open Scope N_scope.
 
@@ -72,19 +75,118 @@ Theorem C09_marker_inert_templ : forall rand name k,
 Proof. exact marker_inert_templ. Qed.
 Print Assumptions C09_marker_inert_templ.
 
-(* _partial: about the t_uniq rule of _uscan.re alone.  Whatever follows, the rule matches exactly the
-   marker; the marker is 0x7f mid 0x7f with no 0x7f inside (so the rule cannot end early or late); 0x7f is
-   not the first character of any other rule of the block except the one-character catch-all, and the URL
-   character class excludes it (a preceding URL token stops in front of a marker).  NOT covered here: the
-   longest-match composition with the full rule set (C10's scanner model), in particular that a marker inside
-   an HTML tag or comment token ("<" ... [^\000<>]* ...) is absorbed by that token. *)
-Theorem C09_marker_atomic_partial : forall rand name k,
+(* About C09's own transcription of the t_uniq rule (kept: the tie runs it): whatever follows, it matches exactly
+   the marker; the marker is 0x7f mid 0x7f with no 0x7f inside. *)
+Theorem C09_marker_shape : forall rand name k,
   name_ok name -> hex_ok rand ->
   (forall rest, t_uniq_at (marker rand name k ++ rest) = Some (marker rand name k, rest)) /\
   (exists mid, marker rand name k = 127 :: mid ++ [127] /\ ~ In 127 mid) /\
   starts_other_rule 127 = false /\ url_char 127 = false.
 Proof. exact marker_atomic_partial. Qed.
-Print Assumptions C09_marker_atomic_partial.
+Print Assumptions C09_marker_shape.
+
+(* COMPOSITION WITH THE SCANNER MODEL OF C10 (rules regenerated from _uscan.re into C10/Gen_rules.v on every run,
+   re2c longest match / earliest rule on ties = C10.Model.best_match, actions = C10.Model.exec/step/run/scan).
+
+   (1) Rule selection.  At a text that starts with a marker, whatever follows: in the main block the t_uniq rule
+   matches the marker IN FULL and wins (every other rule matches at most one character there); the begin-of-line
+   block only falls through ([^] goto not_bol). *)
+Theorem C09_marker_wins_rule_selection : forall rand name k rest,
+  name_ok name -> hex_ok rand ->
+  C10.Model.best_match C10.Gen_rules.main_rules (marker rand name k ++ rest)
+    = Some (C10.Tags.A_ret C10.Gen_rules.t_uniq, length (marker rand name k)) /\
+  C10.Model.best_match C10.Gen_rules.bol_rules (marker rand name k ++ rest) = Some (C10.Tags.A_goto_notbol, 1%nat).
+Proof. exact (fun rand name k rest Hn Hr => conj (main_at_marker rand name k rest Hn Hr) (bol_at_marker rand name k rest Hn Hr)). Qed.
+Print Assumptions C09_marker_wins_rule_selection.
+
+(* (2) One call of Scanner::scan() whose start is the first character of a marker -- any scanner state, any
+   previous character, anything after the marker -- consumes exactly the marker and records ONE t_uniq token. *)
+Theorem C09_marker_atomic_step : forall rand name k rest prev pos s,
+  name_ok name -> hex_ok rand ->
+  let m := marker rand name k in
+  let s0 := if match prev with None => true | Some c => c =? 10 end then C10.Model.set_rowchar 0 s else s in
+  C10.Model.step prev (m ++ rest) pos s
+  = C10.Model.R_cont (length m) (C10.Model.found C10.Gen_rules.t_uniq pos (length m) s0).
+Proof. exact step_at_marker. Qed.
+Print Assumptions C09_marker_atomic_step.
+
+(* (3) The exact context condition.  The only rules of the generated table that can run across a 0x7f are the html
+   tag rule and the comment rule (every match of them is "<" x ">" with no ">" in x), the t_uniq rule itself (first
+   character 0x7f) and single-character rules; so a scan() call that starts inside a stretch u without NUL and
+   0x7f in which every "<" is followed by a ">" (clear u) never consumes the 0x7f that follows u. *)
+Theorem C09_no_token_runs_into_marker : forall prev u w pos s k s',
+  u <> [] -> clear u ->
+  C10.Model.step prev (u ++ 127 :: w) pos s = C10.Model.R_cont k s' -> (k <= length u)%nat.
+Proof. exact step_no_cross. Qed.
+Print Assumptions C09_no_token_runs_into_marker.
+
+(* (4) Whole scan.  If the text in front of a marker consists of earlier complete markers and of such stretches
+   (pre_ok u: i.e. the marker does not stand inside an html tag "<tag ... MARKER ...>" or a comment token), then,
+   WHATEVER follows the marker, the token list utoken.scan's model returns contains the token
+   (t_uniq, start = |u|, length = |marker|): matched in full, not merged, not retagged, not dropped. *)
+Theorem C09_marker_atomic : forall rand name k u v,
+  name_ok name -> hex_ok rand -> pre_ok u ->
+  exists l, C10.Model.scan (u ++ marker rand name k ++ v) = C10.Model.F_done l /\
+            In (C10.Model.Tok C10.Gen_rules.t_uniq (length u) (length (marker rand name k))) l.
+Proof. exact marker_token_in_scan. Qed.
+Print Assumptions C09_marker_atomic.
+
+Example C09_marker_context_example :
+  pre_ok ([97; 32; 60; 98; 32; 120; 61; 39; 49; 39; 62] ++ marker [48; 97] [109; 97; 116; 104] 7 ++ [99])
+  /\ name_ok [109; 97; 116; 104] /\ hex_ok [48; 97].
+Proof. exact pre_ok_example. Qed.
+Print Assumptions C09_marker_context_example.
+
+(* DECODING OF nowiki / pre BODIES (core.py create_nowiki / create_pre -> util.replace_html_entities =
+   re.sub("&[^;]*;", resolve_entity); resolve_entity = the model of coq/C01 with the except clause and the surrogate
+   guard regenerated from util.py).  For EVERY int() and every name table with code points in range: the call never
+   raises; the text is tiled by plain characters and "&" [^;]* ";" spans; plain characters are copied; a span is
+   copied unchanged or replaced by ONE character c, and then (decoded_ref) it is "&#" digits ";" / "&#x" digits ";"
+   with int(digits, base) = z, chr(z) = c valid (no surrogate under the guard), or "&" name ";" with name in the table. *)
+Theorem C09_entity_decode_only_refs :
+  forall (pyint : Z -> list N -> option Z) (name2cp : list N -> option Z),
+  (forall s z, name2cp s = Some z -> (0 <= z < 1114112)%Z) ->
+  forall txt,
+  let resolve := C01.Model.resolve_entity pyint name2cp C01.Gen_resolve.caught_numeric C01.Gen_resolve.surrogate_guard in
+  let segs := ent_segments ent_strict txt in
+  concat (map eseg_src segs) = txt /\
+  replace_html_entities resolve ent_strict txt = C01.Model.Ok (concat (map (eseg_out resolve) segs)) /\
+  Forall (eseg_decoded pyint name2cp) segs.
+Proof. exact (fun pyint name2cp H txt => decode_only_refs pyint name2cp H ent_strict txt). Qed.
+Print Assumptions C09_entity_decode_only_refs.
+
+(* With an int() that accepts only non-empty ASCII digit strings of the base (the behaviour after the proposed fix
+   fixes/C09-entity-lenient-int.diff), a decoded span is a VALID character reference. *)
+Theorem C09_entity_decode_strict : forall pyint name2cp e c,
+  pyint_strict pyint -> decoded_ref pyint name2cp e c ->
+  (exists base digits z, nth_error e 1 = Some 35 /\ digit_string base digits = true /\ pyint base digits = Some z /\
+                         (0 <= z < 1114112)%Z /\ c = Z.to_N z /\
+                         (C01.Gen_resolve.surrogate_guard = true -> ~ (55296 <= z <= 57343)%Z) /\
+                         (base = 16%Z /\ digits = C01.Model.slice_to_m1 3 e \/ base = 10%Z /\ digits = C01.Model.slice_to_m1 2 e))
+  \/ (exists z, name2cp (C01.Model.slice_to_m1 1 e) = Some z /\ c = Z.to_N z).
+Proof. exact decoded_ref_strict. Qed.
+Print Assumptions C09_entity_decode_strict.
+
+(* The lenient pattern "&[^;]*;" (ent_strict = false, the code as it is) hands the raw span to CPython's int(): with
+   any int() that reads "+65" as 65 (CPython does; exercised by the check) "&#+65;" -- not a character reference --
+   becomes "A" inside <nowiki>; under the strict pattern of the proposed fix it is left alone.  Reported defect. *)
+Theorem C09_entity_lenient_int_refuted : forall pyint name2cp,
+  pyint 10%Z [43; 54; 53] = Some 65%Z ->
+  replace_html_entities (C01.Model.resolve_entity pyint name2cp C01.Gen_resolve.caught_numeric C01.Gen_resolve.surrogate_guard)
+    false [38; 35; 43; 54; 53; 59] = C01.Model.Ok [65]
+  /\ replace_html_entities (C01.Model.resolve_entity pyint name2cp C01.Gen_resolve.caught_numeric C01.Gen_resolve.surrogate_guard)
+    true [38; 35; 43; 54; 53; 59] = C01.Model.Ok [38; 35; 43; 54; 53; 59]
+  /\ digit_string 10 [43; 54; 53] = false.
+Proof. exact lenient_int_decodes_non_reference. Qed.
+Print Assumptions C09_entity_lenient_int_refuted.
+
+Example C09_entity_decode_example :
+  replace_html_entities (C01.Model.resolve_entity C01.Model.ascii_int ex_names C01.Gen_resolve.caught_numeric C01.Gen_resolve.surrogate_guard) ent_strict
+    [97; 38; 97; 109; 112; 59; 38; 35; 54; 53; 59; 38; 98; 111; 103; 117; 115; 59; 38; 35; 120; 52; 49]
+  = C01.Model.Ok [97; 38; 65; 38; 98; 111; 103; 117; 115; 59; 38; 35; 120; 52; 49]
+  /\ pyint_strict C01.Model.ascii_int /\ (forall s z, ex_names s = Some z -> (0 <= z < 1114112)%Z).
+Proof. exact decode_example. Qed.
+Print Assumptions C09_entity_decode_example.
 
 (* The hypothesis no_exotic is needed: the code matches <ſource> (U+017F) as a source tag under
    re.IGNORECASE, builds a marker with a non-ASCII name, and replace_uniq never restores it.
